@@ -43,14 +43,17 @@ def cases(tier, seed):
                 if L != n:
                     out.append({"part": "bad-length", "cls": cls, "table": tab, "p_f": p_f, "p_i": p_i,
                                 "nx": 5, "n": n, "L": L})
-    ops = ["rf", "rf_density", "interp", "sim"]
+    ops = ["rf", "rf_density", "rf_t", "interp", "sim"]
     for (cls, tab, p_f, p_i) in CONFIGS:
         for k in ((1, 2, 3, 4, 5) if tier == "thorough" else (1, 2, 3)):
             for path in itertools.product(ops, repeat=k):
                 if tab and tab.startswith("A_"):
                     tab = "S_zlin"  # the density mode needs a density column
-                out.append({"part": "lifecycle", "cls": cls, "table": tab or "S_ideal", "p_f": p_f,
-                            "p_i": p_i, "nx": 6, "path": list(path)})
+                for t0 in (0.0, -1.25):  # the second grid starts at a negative time
+                    if t0 and k > 3:
+                        continue
+                    out.append({"part": "lifecycle", "cls": cls, "table": tab or "S_ideal", "p_f": p_f,
+                                "p_i": p_i, "nx": 6, "path": list(path), "t0": t0})
     return out
 
 
@@ -142,8 +145,14 @@ def eval_lifecycle(case):
     fl = tables.fluid(case["table"], case["p_i"])
     r = (IdealReservoir if case["cls"] == "ideal" else SinglePhaseReservoir)(case["nx"], case["p_f"],
                                                                             case["p_i"], fl)
-    t = sim.time_grid("quadratic", 9, 2.0)
+    t = sim.time_grid("quadratic", 9, 2.0) + case.get("t0", 0.0)
     simulated = False
+    last_kind = None  # density flag of the latest recovery call (decides which curve the interpolator serves)
+
+    def fresh_curve(dens):
+        q = (IdealReservoir if case["cls"] == "ideal" else SinglePhaseReservoir)(case["nx"], case["p_f"], case["p_i"], fl)
+        q.simulate(t.copy())
+        return np.asarray(q.recovery_factor(density=dens), dtype=float)
     viol = []
     states = 1
     for k, op in enumerate(case["path"]):
@@ -152,9 +161,15 @@ def eval_lifecycle(case):
             if op == "sim":
                 r.simulate(t.copy())
                 simulated = True
+                last_kind = None
                 continue
-            if op in ("rf", "rf_density"):
-                val = r.recovery_factor(density=(op == "rf_density"))
+            if op in ("rf", "rf_density", "rf_t"):
+                if op == "rf_t":  # the optional time argument (another grid of the same length)
+                    val = r.recovery_factor(time=np.linspace(t[0], t[-1], len(t)))
+                else:
+                    val = r.recovery_factor(density=(op == "rf_density"))
+                if simulated:
+                    last_kind = op == "rf_density"
                 if not simulated:
                     viol.append(V("lifecycle/no-error-before-simulate", f"{op} before any simulate returned a "
                                   f"value (path {case['path'][:k + 1]})", case=case))
@@ -167,13 +182,13 @@ def eval_lifecycle(case):
                     viol.append(V("lifecycle/no-error-before-simulate", "interpolator before any simulate was "
                                   f"built (path {case['path'][:k + 1]})", case=case))
                     continue
-                rec = np.asarray(r.recovery, dtype=float)
+                rec = fresh_curve(bool(last_kind))  # recovery at the simulated times, from a fresh object
                 at = np.asarray(f(t), dtype=float)
                 tol = 1e-15 + 4 * EPS * np.abs(rec)
                 if not np.all(np.abs(at - rec) <= tol):
                     viol.append(V("lifecycle/interp-nodes", "interpolator does not reproduce recovery at the "
                                   f"simulated times (max diff {np.max(np.abs(at - rec)):.3g})", case=case))
-                before = np.asarray(f([t[0] - 1.0, t[0] - 1e-9, -1e300]), dtype=float)
+                before = np.asarray(f([t[0] - 1.0, t[0] - 1e-9 * max(1.0, abs(t[0])), -1e300]), dtype=float)
                 after = np.asarray(f([t[-1] + 1e-9, t[-1] + 5.0, 1e300]), dtype=float)
                 if not np.all(before == 0.0):
                     viol.append(V("lifecycle/interp-before", f"interpolator before the first time gives {before}",
